@@ -44,15 +44,24 @@ def correspondence(ctx):
             sub = [d for d in decs if r.random() < 0.6] or decs[:1]
             toyecc.reset()
 
+            key2 = C.gen_key(r)
+
             def history():
-                b = Bec2File(B.build(cm, comps), [C.mk_block(x) for x in blocks], key)
+                # the SAME encryptor objects and the SAME block objects are used for every write
+                eobjs = [C.mk_encryptor(e, ToyPub, ToyPriv) for e in encs]
+                bobjs = [C.mk_block(x) for x in blocks]
+                b = Bec2File(B.build(cm, comps), bobjs, key)
                 s = io.StringIO()
-                b.write_file(s, [C.mk_encryptor(e, ToyPub, ToyPriv) for e in encs])
+                b.write_file(s, eobjs)
                 t1 = s.getvalue()
                 g = Bec2File.read_file(io.StringIO(t1), [C.mk_encryptor(e, ToyPub, ToyPriv) for e in sub], True)
                 s2 = io.StringIO()
-                g.write_file(s2, [C.mk_encryptor(e, ToyPub, ToyPriv) for e in encs])
-                return t1, s2.getvalue()
+                g.write_file(s2, eobjs)
+                s3 = io.StringIO()
+                b.write_file(s3, eobjs)                       # same object written again
+                s4 = io.StringIO()
+                Bec2File(B.build(cm, comps), bobjs, key2).write_file(s4, eobjs)   # same blocks, other key
+                return t1, s2.getvalue(), s3.getvalue(), s4.getvalue()
             h = run_impl(history)
             nk, nr = toyecc.STATE["nk"], toyecc.STATE["nr"]
             qf = B.qfile_new(cm, comps)
@@ -63,9 +72,13 @@ def correspondence(ctx):
             model = ("(let (b, nr) := t_new %s %s %s 0 in "
                      "let* (t1, nk) := t_write b %s 0 in "
                      "let* (g, nr) := t_read t1 %s true nr in "
-                     "let* (t2, nk) := t_write g %s nk in Ok (t1, t2, nk, nr))" % (qf, qb, qkey, qe, qs, qe))
-            want = qres(h, lambda v: "(%s, %s, %s, %s)" % (B.qstr(v[0]), B.qstr(v[1]), qN(nk), qN(nr)))
-            exprs.append("res_eqb (prod_eqb (prod_eqb (prod_eqb str_eqb str_eqb) N.eqb) N.eqb) %s %s" % (model, want))
+                     "let* (t2, nk) := t_write g %s nk in "
+                     "let* (t3, nk) := t_write b %s nk in "
+                     "let (b2, nr) := t_new %s %s (Some %s) nr in "
+                     "let* (t4, nk) := t_write b2 %s nk in Ok ([t1; t2; t3; t4], nk, nr))" % (
+                         qf, qb, qkey, qe, qs, qe, qe, qf, qb, qbytes(key2), qe))
+            want = qres(h, lambda v: "(%s, %s, %s)" % (qlist([B.qstr(x) for x in v], "str"), qN(nk), qN(nr)))
+            exprs.append("res_eqb (prod_eqb (prod_eqb (list_eqb str_eqb) N.eqb) N.eqb) %s %s" % (model, want))
             descr.append(("history", cm, comps, blocks, key, encs, sub))
             ctx.case(("h", repr(cm), repr(comps), repr(blocks), key, repr(encs), repr(sub)))
             ctx.dist["history->" + ("ok" if h[0] == "ok" else h[1])] += 1
@@ -140,16 +153,23 @@ def search(ctx):
         code = bytes(r.randrange(256) for _ in range(8))
         kinds_all = ["custkey", "ecc", "update"]
 
+        # long-lived objects, as an application would keep them: the same auth-block objects and the
+        # same encryptor objects serve many files and many writes
+        shared_blocks = {"custkey": InitCustKeyAuthBlock(), "ecc": InitEccAuthBlock(1), "update": UpdateAuthBlock(code, 3)}
+        shared_encs = {"custkey": SoftwareCustKeyEncryptor(ckey), "ecc": EccEncryptor(1, rcp.public_key)}
+
         def blocks_of(kinds, sel=1, ver=3):
+            if sel == 1 and ver == 3 and r.random() < 0.7:
+                return [shared_blocks[k] for k in kinds]
             return [{"custkey": InitCustKeyAuthBlock(), "ecc": InitEccAuthBlock(sel),
                      "update": UpdateAuthBlock(code, ver)}[k] for k in kinds]
 
         def encs_of(kinds, sel=1):
             out = []
             if "custkey" in kinds:
-                out.append(SoftwareCustKeyEncryptor(ckey))
+                out.append(shared_encs["custkey"] if r.random() < 0.7 else SoftwareCustKeyEncryptor(ckey))
             if "ecc" in kinds:
-                out.append(EccEncryptor(sel, rcp.public_key))
+                out.append(shared_encs["ecc"] if sel == 1 and r.random() < 0.7 else EccEncryptor(sel, rcp.public_key))
             return out
 
         def decs_of(kinds, sel=1):
